@@ -467,7 +467,7 @@ def construct (cls : Cls) (sequence : Str) (name : Option Str) (kw : Params) : E
     if sq = [] then .error .emptySequence
     else
       let nonN := sq.length - countN sq
-      let divisor := if maxErrors.ge1 ∧ nonN ≠ 0 then sq.length else 1
+      let divisor := if maxErrors.ge1 ∧ nonN ≠ 0 then nonN else 1
       -- min(min_overlap, len(sequence))
       let minOverlap := if minOverlap.gtNat sq.length then .int sq.length else minOverlap
       if adapterWildcards.truthy ∧ ¬ sq.all isIupac then .error .invalidCharacter
